@@ -278,7 +278,9 @@ def r204_validator(ctx):
         ctx.ob("R20.4", fq, cc[0].node if cc else None, ok, f"the {nm} features are length-checked against X whenever "
                "they are given", construct=f"guard: {nm} length")
         # the check precedes every other use of the feature
-        uses = [e for e in r.events if e.kind == "call" and e.data.get("callee") != CCL
+        # (a call whose body is analysed in place - a nested helper, an inlined function - is not itself a use: its body is)
+        uses = [e for e in r.events if e.kind == "call" and e.data.get("callee") != CCL and not e.data.get("inlined")
+                and e.data["fterm"].op not in ("closure", "lam", "lambda")
                 and any(a is f for a in e.data.get("args", ()))]
         ok2 = bool(cc) and all(cc[0].seq < u.seq for u in uses)
         ctx.ob("R20.4", fq, cc[0].node if cc else None, ok2, f"the {nm} length check precedes every other use",
